@@ -2,6 +2,7 @@
 package c02
 
 import (
+	"math/big"
 	"fmt"
 	"reflect"
 	"sort"
@@ -346,6 +347,46 @@ func tamperTable() []tamper {
 	l1("entry-point-selector", func(t *rapid.T, x *core.L1HandlerTransaction) { x.EntryPointSelector = bump(x.EntryPointSelector) })
 	l1("nonce", func(t *rapid.T, x *core.L1HandlerTransaction) { x.Nonce = bump(x.Nonce) })
 	l1("calldata", func(t *rapid.T, x *core.L1HandlerTransaction) { x.CallData = bumpAt(x.CallData, t) })
+
+	// version with the query bit (2^128) set: TransactionVersion.Is() ignores that bit, so every version switch still takes
+	// the same branch, but the bit is part of the hash preimage of every transaction kind whose hash is recomputable
+	add(txField("any/version-query-bit", func(t *rapid.T, b *gen.Block) (core.Transaction, int, bool) {
+		var idx []int
+		for i, tx := range b.B.Transactions {
+			switch x := tx.(type) {
+			case *core.DeployTransaction:
+				continue // hash given
+			case *core.DeclareTransaction:
+				if x.Version.Is(0) {
+					continue
+				}
+			case *core.L1HandlerTransaction:
+				if x.Nonce == nil {
+					continue
+				}
+			}
+			idx = append(idx, i)
+		}
+		if len(idx) == 0 {
+			return nil, 0, false
+		}
+		i := idx[rapid.IntRange(0, len(idx)-1).Draw(t, "txi")]
+		tx := b.B.Transactions[i]
+		ver := tx.TxVersion()
+		q := new(felt.Felt).Exp(gen.FP(2), big.NewInt(128))
+		nv := core.TransactionVersion(*new(felt.Felt).Add(ver.AsFelt(), q))
+		switch x := tx.(type) {
+		case *core.InvokeTransaction:
+			x.Version = &nv
+		case *core.DeclareTransaction:
+			x.Version = &nv
+		case *core.DeployAccountTransaction:
+			x.Version = &nv
+		case *core.L1HandlerTransaction:
+			x.Version = &nv
+		}
+		return tx, i, true
+	}))
 
 	// signature: committed by the transaction commitment, not by the tx hash
 	tb = append(tb, tamper{name: "tx/signature", apply: func(t *rapid.T, b *gen.Block, u *gen.Universe) string {
